@@ -392,9 +392,9 @@ def copypath(source: str, dest: str) -> None:
     dest : str
         path to target destination
     """
-    if not os.path.exists(source) or (os.path.exists(dest)
-                                      and os.path.getsize(source)
-                                      <= os.path.getsize(dest)):
+    if not os.path.exists(source) or os.path.isdir(dest) or (
+            os.path.exists(dest)
+            and os.path.getsize(source) <= os.path.getsize(dest)):
         return
     path_parts = Path(dest).parts
     if len(path_parts) > 1:
